@@ -15,6 +15,7 @@ let id_of_index k = Url.parse_uid (bytes_of_string (fake_name k))
 let st = ref Files.init
 let uploaded : int list ref = ref []
 let pubs : (int * int) list ref = ref []      (* publish index -> topic index *)
+let owners : (string * string) list ref = ref []   (* topic -> the user that created it *)
 let index_of_id id =
   match List.find_opt (fun k -> id_of_index k = id) !uploaded with
   | Some k -> string_of_int k
@@ -149,7 +150,8 @@ let handle (w : string list) : string =
      | Files.EServed, Some f -> "served:" ^ index_of_id f.Files.f_id
      | e, _ -> effect e)
   | ["USER"; u] -> st := Files.step !st (Files.OAddUser (n_of_string u)); "USER ok"
-  | ["TOPIC"; t; _; tpls] ->
+  | ["TOPIC"; t; o; tpls] ->
+    owners := (t, o) :: !owners;
     st := Files.step !st (Files.OAddTopic (n_of_string t));
     st := Files.step !st (Files.OTopicAvatar (n_of_string t, resolve tpls));
     "TOPIC 200"
@@ -167,7 +169,11 @@ let handle (w : string list) : string =
     if ks = [] then "DELMSG skip"
     else begin st := Files.step !st (Files.ODelMsgs (List.map n_of_int ks)); "DELMSG 200" end
   | ["DELTOPIC"; _; t] -> st := Files.step !st (Files.ODelTopic (n_of_string t)); "DELTOPIC 200"
-  | ["DELUSER"; u] -> st := Files.step !st (Files.ODelUser (n_of_string u)); "DELUSER 200"
+  | ["DELUSER"; u] ->
+    (* hard deletion of an account deletes the topics it owns (UserDelete, adapter.go:1131-1156):
+       one ODelTopic per owned topic, then ODelUser *)
+    List.iter (fun (t, o) -> if o = u then st := Files.step !st (Files.ODelTopic (n_of_string t))) !owners;
+    st := Files.step !st (Files.ODelUser (n_of_string u)); "DELUSER 200"
   | ["GC"; kind; lim] ->
     let older = match kind with
       | "future" -> Some (z_of_int 1) | "past" -> Some (z_of_int (-1)) | _ -> None in
